@@ -70,7 +70,9 @@ def exec_small(stmts, env, lenient=False, until=None, steps=None, evalf=None):
     -> (kind, value, node) with kind in fallthrough | return | raise | break | continue | until (the statement `until` was reached; it is not executed).
     strict (default): anything beyond that raises CannotEval. lenient: a statement that cannot be evaluated makes every name it stores to unknown (removed from env) and the walk goes
     on — used to learn which locals have a KNOWN value when `until` is reached (e.g. a parameter whose default None is resolved to a constant at call time); an `if` around `until` whose
-    test cannot be evaluated is entered on the side that leads to it."""
+    test cannot be evaluated is entered on the side that leads to it.
+    generator mode (env["__yields__"] is a Yields list): `yield E` / `yield from E` statements emit the evaluated value — the object itself, no copy —, stores through a subscript and call
+    statements (container methods, applied by the evaluator) act on the shared objects, so aliasing between what was yielded earlier and what is changed later is observed."""
     steps = steps if steps is not None else [0]
     ev_ = evalf or ev  # the expression evaluator (minieval; ev_str where path-splitting code is interpreted)
 
@@ -85,6 +87,14 @@ def exec_small(stmts, env, lenient=False, until=None, steps=None, evalf=None):
                 raise CannotEval(f"line {getattr(at, 'lineno', '?')}: {v!r} cannot be unpacked into {len(t.elts)} names: ValueError")
             for e_, x in zip(t.elts, v):
                 env[e_.id] = x
+        elif isinstance(t, ast.Subscript) and "__yields__" in env:  # generator mode: containers are real (shared) objects, a store through a subscript is seen by every holder
+            c_ = ev_(t.value, env)
+            if not isinstance(c_, (dict, list)):
+                raise CannotEval(f"store to `{u(t)[:40]}`")
+            try:
+                c_[ev_(t.slice, env)] = v
+            except (IndexError, KeyError, TypeError) as x:
+                raise CannotEval(f"store to `{u(t)[:40]}`: {type(x).__name__}")
         else:
             raise CannotEval(f"store to `{u(t)[:40]}`")
 
@@ -181,6 +191,16 @@ def exec_small(stmts, env, lenient=False, until=None, steps=None, evalf=None):
                 return "continue", None, s
             elif isinstance(s, (ast.Pass, ast.Assert, ast.Import, ast.ImportFrom, ast.Global, ast.Nonlocal)) or is_logging_stmt(s) or (isinstance(s, ast.Expr) and isinstance(s.value, ast.Constant)):
                 pass
+            elif "__yields__" in env and isinstance(s, ast.Expr) and isinstance(s.value, ast.Yield):
+                env["__yields__"].emit(None if s.value.value is None else ev_(s.value.value, env))
+            elif "__yields__" in env and isinstance(s, ast.Expr) and isinstance(s.value, ast.YieldFrom):
+                items = ev_(s.value.value, env)
+                if not isinstance(items, (list, tuple)):
+                    raise CannotEval(f"yield from `{u(s.value.value)[:40]}`")
+                for x_ in items:
+                    env["__yields__"].emit(x_)
+            elif "__yields__" in env and isinstance(s, ast.Expr) and isinstance(s.value, ast.Call):
+                ev_(s.value, env)  # a call statement: the evaluator applies the mutating container methods (update / append / ...) to the shared object
             elif lenient and isinstance(s, (ast.With, ast.AsyncWith)):
                 for nm in stored_names([it.optional_vars for it in s.items if it.optional_vars is not None]):
                     env.pop(nm, None)
@@ -1995,6 +2015,320 @@ def recreated_file_invalidates_table(chk, io_mod, ldr, roles, rid="O14.9"):
                    key=f"{_L}:DocumentSetPreparator.{name}:{c.func.attr}:invalidates-offset-table")
 
 
+# ---- O14.10 every used corpus reaches a preparation task ---------------------------------------------------------------------------------------------------------------
+class Sym:
+    """an opaque representative value (an object the evaluator does not look into) that remembers what it was derived from — `corpus.name` of the i-th corpus, `Preparator(track.name,
+    ...)`. Two are equal when their texts are; its truth value is not known (CannotEval)."""
+
+    def __init__(self, text, parts=(), corpus=None):
+        self.text, self.parts, self.corpus = text, tuple(parts), corpus
+
+    def __eq__(self, o):
+        return isinstance(o, Sym) and o.text == self.text
+
+    def __hash__(self):
+        return hash(self.text)
+
+    def __bool__(self):
+        raise CannotEval(f"truth value of `{self.text}`")
+
+    def __repr__(self):
+        return f"<{self.text}>"
+
+
+def corpora_in(v, seen=None):
+    """indices of the representative corpora the value v carries: directly, inside containers, or as the origin of an opaque derived value."""
+    seen = seen if seen is not None else set()
+    if id(v) in seen:
+        return set()
+    seen.add(id(v))
+    out = set()
+    if isinstance(v, Sym):
+        if v.corpus is not None:
+            out.add(v.corpus)
+        for p_ in v.parts:
+            out |= corpora_in(p_, seen)
+    elif isinstance(v, dict):
+        for k_, x in v.items():
+            out |= corpora_in(k_, seen) | corpora_in(x, seen)
+    elif isinstance(v, (list, tuple, set, frozenset)):
+        for x in v:
+            out |= corpora_in(x, seen)
+    return out
+
+
+class Yields(list):
+    """what a generator function emitted, in order (exec_small's generator mode); snaps[i] = the corpora the i-th value carried AT THE TIME it was yielded."""
+
+    def __init__(self):
+        super().__init__()
+        self.snaps = []
+
+    def emit(self, v):
+        self.append(v)
+        self.snaps.append(corpora_in(v))
+
+
+def copy_value(v, deep):
+    if isinstance(v, dict):
+        return {k_: (copy_value(x, True) if deep else x) for k_, x in v.items()}
+    if isinstance(v, list):
+        return [(copy_value(x, True) if deep else x) for x in v]
+    if isinstance(v, tuple) and deep:
+        return tuple(copy_value(x, True) for x in v)
+    if isinstance(v, set):
+        return set(v)
+    return v
+
+
+_CONTAINER_METHODS = ("update", "setdefault", "pop", "popitem", "append", "extend", "insert", "clear", "remove")
+
+
+def ev_tasks(e, env):
+    """Evaluator for a task-generating function (exec_small's generator mode), on top of minieval: containers are real Python objects — a dict display, dict(...), `{**a, ...}`, `a | b`,
+    .copy(), copy.copy / deepcopy make a NEW object, a name or a subscript yields the SAME one, the mutating container methods change it in place —, so sharing between tasks is observed
+    exactly as the interpreter would produce it. Parameters, module-level names, attribute chains on them and calls of anything else are opaque Sym values that remember their origin;
+    the call named by env["__source__"] yields the representative corpora env["__corpora__"]. No repository code runs; CannotEval for anything else."""
+    E = lambda x: ev_tasks(x, env)  # noqa: E731
+
+    def seq(elts):
+        vals = []
+        for x in elts:
+            if isinstance(x, ast.Starred):
+                sv = E(x.value)
+                if not isinstance(sv, (list, tuple)):
+                    raise CannotEval(f"*{u(x.value)[:40]}")
+                vals += list(sv)
+            else:
+                vals.append(E(x))
+        return vals
+
+    def bind_target(t, v, env2):
+        if isinstance(t, ast.Name):
+            env2[t.id] = v
+        elif isinstance(t, (ast.Tuple, ast.List)) and isinstance(v, (list, tuple)) and len(v) == len(t.elts):
+            for t_, x in zip(t.elts, v):
+                bind_target(t_, x, env2)
+        else:
+            raise CannotEval(f"target `{u(t)[:40]}`")
+
+    try:
+        if isinstance(e, ast.Constant):
+            return e.value
+        if isinstance(e, ast.Name):
+            if e.id in env:
+                return env[e.id]
+            if e.id in env.get("__globals__", ()):
+                return Sym(e.id)
+            raise CannotEval(f"unbound name {e.id}")
+        if isinstance(e, ast.Attribute):
+            b = E(e.value)
+            if isinstance(b, Sym):
+                return Sym(f"{b.text}.{e.attr}", (b,))
+            raise CannotEval(f"attribute {u(e)[:60]}")
+        if isinstance(e, (ast.Tuple, ast.List, ast.Set)):
+            vals = seq(e.elts)
+            return vals if isinstance(e, ast.List) else (tuple(vals) if isinstance(e, ast.Tuple) else set(vals))
+        if isinstance(e, ast.Dict):
+            out = {}
+            for k_, v_ in zip(e.keys, e.values):
+                if k_ is None:
+                    m = E(v_)
+                    if not isinstance(m, dict):
+                        raise CannotEval(f"**{u(v_)[:40]}")
+                    out.update(m)
+                else:
+                    out[E(k_)] = E(v_)
+            return out
+        if isinstance(e, ast.Subscript):
+            v = E(e.value)
+            if not isinstance(v, (dict, list, tuple, str)):
+                raise CannotEval(f"subscript of `{u(e.value)[:40]}`")
+            if isinstance(e.slice, ast.Slice):
+                lo, hi, st = (None if x is None else E(x) for x in (e.slice.lower, e.slice.upper, e.slice.step))
+                if isinstance(v, dict) or not all(x is None or (isinstance(x, int) and not isinstance(x, bool)) for x in (lo, hi, st)) or st == 0:
+                    raise CannotEval(f"slice {u(e)[:60]}")
+                return v[lo:hi:st]
+            return v[E(e.slice)]
+        if isinstance(e, ast.IfExp):
+            return E(e.body) if E(e.test) else E(e.orelse)
+        if isinstance(e, ast.BoolOp):
+            r = None
+            for x in e.values:
+                r = E(x)
+                if bool(r) != isinstance(e.op, ast.And):
+                    return r
+            return r
+        if isinstance(e, ast.UnaryOp) and isinstance(e.op, ast.Not):
+            return not E(e.operand)
+        if isinstance(e, ast.Compare):
+            vals = [E(x) for x in [e.left] + e.comparators]
+            names = [ast.Name(id=f"__cmp{i}", ctx=ast.Load()) for i in range(len(vals))]
+            return ev(ast.Compare(left=names[0], ops=e.ops, comparators=names[1:]), {n_.id: v for n_, v in zip(names, vals)})
+        if isinstance(e, ast.BinOp):
+            a, b = E(e.left), E(e.right)
+            if isinstance(e.op, ast.BitOr) and isinstance(a, dict) and isinstance(b, dict):
+                return {**a, **b}
+            if isinstance(e.op, ast.Add) and any(isinstance(a, t_) and isinstance(b, t_) for t_ in (list, tuple, str)):
+                return a + b
+            return ev(ast.BinOp(left=ast.Name(id="__a", ctx=ast.Load()), op=e.op, right=ast.Name(id="__b", ctx=ast.Load())), {"__a": a, "__b": b})
+        if isinstance(e, (ast.ListComp, ast.GeneratorExp, ast.SetComp, ast.DictComp)):
+            out = []
+
+            def rec(i, env_):
+                if i == len(e.generators):
+                    out.append((ev_tasks(e.key, env_), ev_tasks(e.value, env_)) if isinstance(e, ast.DictComp) else ev_tasks(e.elt, env_))
+                    return
+                g = e.generators[i]
+                it = ev_tasks(g.iter, env_)
+                if g.is_async or not isinstance(it, (list, tuple, set, frozenset, dict, range, str)):
+                    raise CannotEval(f"{u(e)[:60]}: iterable")
+                for v in it:
+                    env2 = dict(env_)
+                    bind_target(g.target, v, env2)
+                    if all(ev_tasks(c, env2) for c in g.ifs):
+                        rec(i + 1, env2)
+
+            rec(0, dict(env))
+            return dict(out) if isinstance(e, ast.DictComp) else (set(out) if isinstance(e, ast.SetComp) else out)
+        if isinstance(e, ast.Call):
+            d = dotted(e.func) or ""
+            if last_attr(e.func) == env.get("__source__"):
+                return list(env["__corpora__"])
+            args = seq(e.args)
+            kws = {}
+            for k_ in e.keywords:
+                if k_.arg is None:
+                    m = E(k_.value)
+                    if not isinstance(m, dict) or not all(isinstance(x, str) for x in m):
+                        raise CannotEval(f"**{u(k_.value)[:40]}")
+                    kws.update(m)
+                else:
+                    kws[k_.arg] = E(k_.value)
+            coll = (list, tuple, set, frozenset, dict, range)
+            if d in ("list", "tuple", "iter", "sorted", "reversed", "set", "frozenset") and len(args) == 1 and isinstance(args[0], coll) and (not kws or d == "sorted"):
+                # sorted(): the order of the tasks does not matter to the rule (and opaque values have none)
+                v_ = list(args[0])[:: -1 if d == "reversed" else 1]
+                return tuple(v_) if d == "tuple" else (set(v_) if d == "set" else (frozenset(v_) if d == "frozenset" else v_))
+            if d in ("list", "dict", "tuple", "set") and not args and not kws:
+                return {"list": list, "dict": dict, "tuple": tuple, "set": set}[d]()
+            if d == "enumerate" and 1 <= len(args) <= 2 and isinstance(args[0], coll) and set(kws) <= {"start"}:
+                start = kws.get("start", args[1] if len(args) == 2 else 0)
+                if not isinstance(start, int):
+                    raise CannotEval(f"{u(e)[:60]}: start")
+                return list(enumerate(args[0], start))
+            if d == "zip" and args and all(isinstance(a, coll) for a in args) and not kws:
+                return list(zip(*args))
+            if d == "len" and len(args) == 1 and isinstance(args[0], coll + (str,)):
+                return len(args[0])
+            if d == "dict" and len(args) <= 1:
+                out = {}
+                if args:
+                    if not isinstance(args[0], (dict, list, tuple)):
+                        raise CannotEval(f"{u(e)[:60]}")
+                    out.update(args[0])
+                out.update(kws)
+                return out
+            if d in ("copy.copy", "copy.deepcopy", "copy", "deepcopy") and len(args) == 1 and not kws:
+                return copy_value(args[0], d.endswith("deepcopy"))
+            if isinstance(e.func, ast.Attribute):
+                recv = E(e.func.value)
+                m = e.func.attr
+                if isinstance(recv, (dict, list, set)):
+                    if m == "copy" and not args and not kws:
+                        return copy_value(recv, False)
+                    if isinstance(recv, dict) and m in ("items", "keys", "values") and not args and not kws:
+                        return list(getattr(recv, m)())
+                    if isinstance(recv, dict) and m == "get" and 1 <= len(args) <= 2 and not kws:
+                        return recv.get(*args)
+                    if m in _CONTAINER_METHODS or (isinstance(recv, set) and m in ("add", "discard")):
+                        return getattr(recv, m)(*args, **kws)
+                    raise CannotEval(f"call {u(e)[:60]}")
+                if isinstance(recv, (str, tuple)):
+                    return ev(ast.Call(func=ast.Attribute(value=ast.Name(id="__r", ctx=ast.Load()), attr=m, ctx=ast.Load()), args=[ast.Name(id=f"__a{i}", ctx=ast.Load()) for i in range(len(args))], keywords=[]),
+                              {"__r": recv, **{f"__a{i}": a for i, a in enumerate(args)}}) if not kws else ev(e, env)
+            # any other call: an opaque result that remembers the values it was made from (a constructor, functools.partial, a helper of the module)
+            return Sym(f"{u(e.func)}(...)", [E(e.func)] + args + list(kws.values()))
+        return ev(e, env)
+    except (KeyError, IndexError, TypeError, ValueError, AttributeError) as x:
+        raise CannotEval(f"{u(e)[:60]}: {type(x).__name__}")
+
+
+def materialised(call):
+    """the iterable this call yields is consumed completely before anything is done with its elements: it feeds list(...) / tuple(...) / sorted(...) / a deque / .extend(...) or a list /
+    set / dict comprehension, or a `for` statement that only stores the elements away (.append / .put / .add)."""
+    for a in source.ancestors(call):
+        if isinstance(a, ast.stmt):
+            if isinstance(a, (ast.For, ast.AsyncFor)) and any(x is call for x in ast.walk(a.iter)):
+                return any(isinstance(x, ast.Call) and isinstance(x.func, ast.Attribute) and x.func.attr in ("append", "put", "put_nowait", "add", "appendleft") for b_ in a.body for x in ast.walk(b_))
+            return False
+        if isinstance(a, (ast.ListComp, ast.SetComp, ast.DictComp)):
+            return True
+        if isinstance(a, ast.Call) and a is not call and ((dotted(a.func) or "") in ("list", "tuple", "sorted", "set", "frozenset", "deque", "collections.deque")
+                                                         or (isinstance(a.func, ast.Attribute) and a.func.attr in ("extend", "extendleft"))):
+            return True
+    return False
+
+
+def every_corpus_reaches_a_task(chk, repo, ldr, rid="O14.10"):
+    """The document files of a corpus are prepared by the task that is handed that corpus; the tasks are produced by a generator and collected by the preparation actor before the first one
+    runs. The generator is interpreted on a representative track with three used corpora; what each emitted task carries is read off the emitted objects themselves — when they are
+    emitted, and again when the generator is exhausted (a parameter object shared between tasks is then in its final state)."""
+    chk.rule(rid, "preparation tasks: the task generator (on_prepare_track of the processor that walks used_corpora(track)), interpreted on a track with three used corpora, hands EVERY used "
+             "corpus to a task, and the task still carries it when the generator is exhausted — the consumer (TrackPreparationActor) builds the whole task list before the first task runs, so "
+             "whatever a later iteration changes in an object an earlier task holds is what that task runs with", 2,
+             "a used corpus reaches no preparation task (or every task ends up with the parameters of the last one): its document files and offset tables are never downloaded, extracted or "
+             "verified, every task succeeds and the preparation reports success")
+    src = "used_corpora"
+    ldr.func(src)
+    cands = [(c, m) for c in ldr.classes() for name, m in ldr.methods(c).items()
+             if name == "on_prepare_track" and any(isinstance(n, ast.Call) and last_attr(n.func) == src for n in walk_body(m))]
+    if len(cands) != 1:
+        raise AnchorMissing(f"{_L}: the on_prepare_track implementation that walks {src}(track) (found {len(cands)})")
+    cls, gen = cands[0]
+    n_corpora = 3
+    env = {p_: Sym(p_) for p_ in params_of(gen)}
+    globs = {x.id for st in ldr.tree.body for x in ast.walk(st) if isinstance(x, ast.Name) and isinstance(x.ctx, ast.Store) and source.enclosing_func(x) is None}
+    globs |= {st.name for st in ldr.tree.body if isinstance(st, (ast.ClassDef,) + tuple(source.FUNC_TYPES))}
+    globs |= {(a.asname or a.name).split(".")[0] for st in ldr.tree.body if isinstance(st, (ast.Import, ast.ImportFrom)) for a in st.names}
+    env.update({"__yields__": Yields(), "__source__": src, "__corpora__": [Sym(f"corpus#{i + 1}", corpus=i) for i in range(n_corpora)], "__globals__": globs})
+    try:
+        kind, val, at = exec_small(gen.body, env, evalf=ev_tasks)
+    except CannotEval as x:
+        chk.unknown(rid, f"{cls.name}.on_prepare_track cannot be interpreted on a representative track ({x}); which corpus each task carries is not known", gen)
+        return
+    ys = env["__yields__"]
+    tasks, snaps = list(ys), list(ys.snaps)
+    if kind == "return" and isinstance(val, (list, tuple)) and not tasks:  # a function that returns the task list instead of yielding
+        tasks, snaps = list(val), [corpora_in(t) for t in val]
+    elif kind == "raise":
+        chk.unknown(rid, f"{cls.name}.on_prepare_track ends in a raise on the representative track; which corpus each task carries is not known", at)
+        return
+    names = lambda idx: ", ".join(f"#{i + 1}" for i in sorted(idx))  # noqa: E731
+    every = set(range(n_corpora))
+    at_yield = set().union(*snaps) if snaps else set()
+    final = [corpora_in(t) for t in tasks]
+    at_end = set().union(*final) if final else set()
+    chk.ob(rid, "every used corpus is handed to a task", at_yield == every, gen,
+           f"{len(tasks)} task(s) for {n_corpora} used corpora" + ("" if at_yield == every else f": corpus {names(every - at_yield)} (of {n_corpora}) is handed to no task — its documents are never prepared"),
+           key=f"{_L}:{cls.name}.on_prepare_track:every-corpus-has-a-task")
+    lost = (every & at_yield) - at_end
+    consumers = [c for c in calls_named(repo, "on_prepare_track")]
+    for c in consumers:
+        chk.use(source.module_of(c))
+    mat = [c for c in consumers if materialised(c)]
+    changed = [i for i, (a, b) in enumerate(zip(snaps, final)) if a != b]
+    if lost and not mat:
+        chk.unknown(rid, f"{cls.name}.on_prepare_track: tasks {[i + 1 for i in changed]} do not carry the corpus they were yielded with once the generator is exhausted, and no consumer "
+                    "of on_prepare_track that collects the tasks first can be located (whether a task runs before the next one is produced is not known)", gen)
+    else:
+        chk.ob(rid, "a task still carries its corpus when the generator is exhausted", not lost, gen,
+               (f"consumer: {short(source.enclosing_stmt(mat[0]), 80)}" if mat else "no task is changed after it was yielded") if not lost else
+               f"corpus {names(lost)} (of {n_corpora}) is carried by no task any more once all tasks are produced: task(s) {[i + 1 for i in changed]} share an object that a later iteration changes "
+               f"(all {len(tasks)} tasks end up with corpus {names(at_end)}); the consumer `{short(source.enclosing_stmt(mat[0]), 70)}` collects every task before the first one runs",
+               key=f"{_L}:{cls.name}.on_prepare_track:task-keeps-its-corpus")
+
+
 def run(chk):
     repo = chk.repo
     net, io_, ldr = repo.module(_N), repo.module(_I), repo.module(_L)
@@ -2012,7 +2346,9 @@ def run(chk):
         "expression, find_closest_offset interpreted statement by statement on tables written by add_offset, the retry budget on the values the locals have when the loop is reached "
         "for the call net.download makes, the external-tool / library fallback per (tool present, external run succeeded) world, splitext interpreted statement by statement over "
         "module-level suffix tables incl. derived ones, offset-table removal and its existence tests evaluated for the world 'a stale table of the data file exists' with calls "
-        "followed into io.py / FileOffsetTable by parameter binding); a role that cannot be located is reported as not recognised (exit 2), never as a violation."
+        "followed into io.py / FileOffsetTable by parameter binding, the value of download()'s temporary path when the transfer starts per (declared / undeclared size, HTTP / bucket URL, "
+        "progress indicator given or not) world, the preparation-task generator interpreted with real shared containers on a track with three used corpora: which corpus each task "
+        "carries when it is yielded and when the generator is exhausted); a role that cannot be located is reported as not recognised (exit 2), never as a violation."
     )
     chk.not_decided = "archive contents, real network behaviour, crash points inside library calls (a kill between two statements of the offset-table build is covered by the rename protocol O14.8; a torn write inside os.replace is not)."
 
@@ -2032,13 +2368,53 @@ def run(chk):
                     and ev(v, {final: _REP}).startswith(_REP) and len(ev(v, {final: _REP})) > len(_REP)]
         except CannotEval:
             tmpv = []
-    if not tmpv:
-        raise AnchorMissing("temporary path `local_path + <suffix>` in net.download")
-    tmp = tmpv[0]
     # every call made by download() itself or by a helper function of the module it calls (an extracted `_fetch(url, tmp, ...)`), with the arguments expressed in download()'s terms
     reach = calls_through(net, dl)
     is_ = lambda e, name: isinstance(e, ast.Name) and e.id == name  # noqa: E731
     writers = [(c, a_, k_, r_) for c, a_, k_, r_ in reach if last_attr(c.func) in ("download_http", "download_from_bucket", "_download_http")]
+    if not tmpv:
+        # role by data flow (the binding is conditional, bound more than once, ...): the local of download() that is bound to a value computed from the final path and is handed to a
+        # transfer routine, or renamed onto the final path; WHICH value it has when the transfer starts is decided below, per world
+        handed = [a.id for c, a_, k_, r_ in writers for a in list(a_) + list(k_.values()) if isinstance(a, ast.Name) and a.id != final]
+        handed += [a_[0].id for c, a_, k_, r_ in reach if dotted(c.func) in _RENAMES and len(a_) == 2 and isinstance(a_[0], ast.Name) and a_[0].id != final and is_(a_[1], final)]
+        from_final = {t.id for n in walk_body(dl) if isinstance(n, ast.Assign) and any(is_(x, final) for x in ast.walk(n.value)) for t in n.targets if isinstance(t, ast.Name)}
+        tmpv = [h for h in dict.fromkeys(handed) if h in from_final]
+        if len(tmpv) != 1:
+            tmpv = []
+    if not tmpv:
+        raise AnchorMissing("temporary path `local_path + <suffix>` in net.download")
+    tmp = tmpv[0]
+    # the value of the temporary path when a transfer starts, per world (declared / undeclared size, HTTP / bucket URL): download()'s statements in front of the transfer are interpreted
+    # on representative parameter values; a transfer that is handed the final name itself streams a partial body into it, and no handler runs when the process is killed
+    same, known_for, starts = [], set(), []
+    for st_ in [source.enclosing_stmt(r_) for _, _, _, r_ in writers]:
+        if not any(st_ is x for x in starts):
+            starts.append(st_)
+    # parameters beyond (url, path, size) with a constant default (the progress indicator): left out by the caller, or given
+    extra_ = [(p_.arg, d_.value) for p_, d_ in zip((dl.args.posonlyargs + dl.args.args)[::-1], dl.args.defaults[::-1]) if isinstance(d_, ast.Constant) and p_.arg not in dp[:3]]
+    unknown_ = 0
+    for st_, e_, url_, given_ in itertools.product(starts, (None, 7, 0), ("https://example.org/corpus/documents.json.bz2", "s3://bucket/corpus/documents.json.bz2"),
+                                                   itertools.product(*[(False, True)] * len(extra_))):
+        env_ = {nm_: (Opaque(f"a {nm_}") if g_ else dv_) for (nm_, dv_), g_ in zip(extra_, given_)}
+        env_.update({dp[0]: url_, final: _REP, dp[2]: e_})
+        try:
+            if exec_small(dl.body, env_, lenient=True, until=st_)[0] != "until":
+                continue
+        except CannotEval:
+            continue
+        if isinstance(env_.get(tmp), str) and env_.get(final) == _REP:
+            known_for.add(e_)
+            w_ = f"{dp[2]}={e_!r}, {url_.split(':')[0]} URL" + "".join(f", {nm_} given" for (nm_, _), g_ in zip(extra_, given_) if g_)
+            if env_[tmp] == _REP and w_ not in same:
+                same.append(w_)
+        else:
+            unknown_ += 1
+    if same or (known_for == {None, 7, 0} and not unknown_):
+        chk.ob("O14.1", "the temporary path differs from the final name whatever size is declared", not same, source.enclosing_stmt(ddefs[tmp]) if tmp in ddefs else dl,
+               "" if not same else f"`{tmp}` IS the final name when {'; '.join(same[:3])}: the body is streamed into the final name, and an interrupted transfer (kill, power loss: no handler runs) "
+               "leaves a partial file there which the next run accepts when no size is declared", key=f"{_N}:download:temporary-path-differs")
+    elif starts:
+        chk.unknown("O14.1", f"net.download: the value of `{tmp}` when the transfer starts cannot be evaluated for every declared / undeclared size", dl)
     if len(writers) < 2:
         chk.unknown("O14.1", f"net.download: the calls of the transfer routines (download_http / download_from_bucket) cannot be located, found {[last_attr(w[0].func) for w in writers]}", dl)
     else:
@@ -2695,6 +3071,9 @@ def run(chk):
     roles = offset_table_publication(chk, repo, io_, "O14.8")
     recreated_file_invalidates_table(chk, io_, ldr, roles, "O14.9")
 
+    # ---- O14.10 every used corpus reaches a preparation task (and keeps it until the task runs) -----------------------------------------------------------------------------------
+    every_corpus_reaches_a_task(chk, repo, ldr, "O14.10")
+
     # ---- O14.7 advisory (superseded by O14.8 once a failing history was shown, F24; kept for a tree on which no rename exists anywhere) -----------------------------------
     cf_ = io_.methods(io_.cls("FileOffsetTable")).get("create_for_data_file")
     if cf_ is not None and not any(isinstance(n, ast.Call) and dotted(n.func) in _RENAMES for n in ast.walk(io_.tree)):
@@ -2741,6 +3120,10 @@ _RM_CLS = '    @classmethod\n    def remove(cls, data_file_path: str) -> None:\n
 _RMW_OLD = ('def remove_file_offset_table(data_file_path: str) -> None:\n    """\n\n    Attempts to remove the file offset table for the provided data path.\n\n'
             '    :param data_file_path: The path to a text file that is readable by this process.\n    """\n    FileOffsetTable.remove(data_file_path)\n')
 _RMW_MISSING_OK = 'def remove_file_offset_table(data_file_path: str, missing_ok: bool = False) -> None:\n    FileOffsetTable.remove(data_file_path, missing_ok=missing_ok)\n'
+
+_TMP_OLD = '    tmp_data_set_path = local_path + ".tmp"\n'
+_GEN_OLD = ('        for corpus in used_corpora(track):\n            params = {"cfg": self.cfg, "track": track, "corpus": corpus, "preparator": prep}\n'
+            '            yield DefaultTrackPreparator.prepare_docs, params\n')
 
 VARIANTS = [
     V("F14: truthiness on the line count", "break", _L, "        if lines_read is not None and lines_read != expected_number_of_lines:", "        if lines_read and lines_read != expected_number_of_lines:", "O14.4"),
@@ -3027,4 +3410,46 @@ VARIANTS = [
     V('invalidation through a table object: the DATA file attribute is removed instead of the table', 'break', _L, _INV_OLD,
       '        table = io.FileOffsetTable.read_for_data_file(document_file_path)\n        if table.exists():\n            os.remove(table.data_file_path)\n', 'O14.9'),
     V('invalidation as pathlib unlink(missing_ok=True) of the table name', 'keep', _L, _INV_OLD, '        pathlib.Path(f"{document_file_path}.offset").unlink(missing_ok=True)\n'),
+    # seeded m13: the path the transfer writes to must differ from the final name in EVERY world (declared / undeclared size, HTTP / bucket URL, progress indicator given or not)
+    V('seed m13: without a declared size the transfer is handed the final name (conditional expression)', 'break', _N, _TMP_OLD,
+      '    tmp_data_set_path = local_path + ".tmp" if expected_size_in_bytes is not None else local_path\n', 'O14.1'),
+    V('the temporary name is reset to the final name by a later `if` when no size is declared', 'break', _N, _TMP_OLD,
+      _TMP_OLD + '    if expected_size_in_bytes is None:\n        tmp_data_set_path = local_path\n', 'O14.1'),
+    V('temporary name with an empty suffix', 'break', _N, _TMP_OLD, '    tmp_data_set_path = local_path + ""\n', 'O14.1'),
+    V('the "temporary" name is an alias of the final name', 'break', _N, _TMP_OLD, '    tmp_data_set_path = local_path\n', 'O14.1'),
+    V('the final name is used whenever a progress indicator is given', 'break', _N, _TMP_OLD, '    tmp_data_set_path = local_path + ".tmp" if progress_indicator is None else local_path\n', 'O14.1'),
+    V('bucket downloads are written to the final name (suffix chosen by URL prefix)', 'break', _N, _TMP_OLD,
+      '    tmp_data_set_path = local_path + ("" if url.startswith("s3://") else ".tmp")\n', 'O14.1'),
+    V('temporary suffix held in a local', 'keep', _N, _TMP_OLD, '    suffix = ".tmp"\n    tmp_data_set_path = local_path + suffix\n'),
+    V('temporary suffix depends on whether a size is declared (never empty)', 'keep', _N, _TMP_OLD, '    tmp_data_set_path = local_path + (".tmp" if expected_size_in_bytes is not None else ".part")\n'),
+    V('temporary name bound in both arms of an `if` (never the final name)', 'keep', _N, _TMP_OLD,
+      '    if expected_size_in_bytes is None:\n        tmp_data_set_path = local_path + ".part"\n    else:\n        tmp_data_set_path = local_path + ".tmp"\n'),
+    # seeded m14: every used corpus reaches a task and the task still carries it when the generator is exhausted (the consumer collects all tasks first)
+    V('seed m14: one parameter dict hoisted out of the loop, only its "corpus" entry is set per iteration', 'break', _L, _GEN_OLD,
+      '        params = {"cfg": self.cfg, "track": track, "preparator": prep}\n        for corpus in used_corpora(track):\n            params["corpus"] = corpus\n'
+      '            yield DefaultTrackPreparator.prepare_docs, params\n', 'O14.10'),
+    V('shared parameter dict updated in place with .update(corpus=...)', 'break', _L, _GEN_OLD,
+      '        common = dict(cfg=self.cfg, track=track, preparator=prep)\n        for corpus in used_corpora(track):\n            common.update(corpus=corpus)\n'
+      '            yield DefaultTrackPreparator.prepare_docs, common\n', 'O14.10'),
+    V('the yield left the loop: one task, for the last corpus only', 'break', _L, _GEN_OLD,
+      '        for corpus in used_corpora(track):\n            params = {"cfg": self.cfg, "track": track, "corpus": corpus, "preparator": prep}\n'
+      '        yield DefaultTrackPreparator.prepare_docs, params\n', 'O14.10'),
+    V('the first used corpus is skipped', 'break', _L, _GEN_OLD,
+      '        for corpus in list(used_corpora(track))[1:]:\n            params = {"cfg": self.cfg, "track": track, "corpus": corpus, "preparator": prep}\n'
+      '            yield DefaultTrackPreparator.prepare_docs, params\n', 'O14.10'),
+    V('tasks collected in a list of (func, params) pairs that all alias one dict, then yielded', 'break', _L, _GEN_OLD,
+      '        params = {"cfg": self.cfg, "track": track, "preparator": prep}\n        tasks = []\n        for corpus in used_corpora(track):\n            params["corpus"] = corpus\n'
+      '            tasks.append((DefaultTrackPreparator.prepare_docs, params))\n        yield from tasks\n', 'O14.10'),
+    V('common parameters hoisted, a NEW dict per task ({**common, "corpus": corpus})', 'keep', _L, _GEN_OLD,
+      '        common = {"cfg": self.cfg, "track": track, "preparator": prep}\n        for corpus in used_corpora(track):\n'
+      '            yield DefaultTrackPreparator.prepare_docs, {**common, "corpus": corpus}\n'),
+    V('common parameters hoisted, copied per task before the corpus is set', 'keep', _L, _GEN_OLD,
+      '        common = {"cfg": self.cfg, "track": track, "preparator": prep}\n        for corpus in used_corpora(track):\n            params = common.copy()\n'
+      '            params["corpus"] = corpus\n            yield DefaultTrackPreparator.prepare_docs, params\n'),
+    V('tasks produced by `yield from` over a generator expression, dict(common, corpus=...)', 'keep', _L, _GEN_OLD,
+      '        common = dict(cfg=self.cfg, track=track, preparator=prep)\n'
+      '        yield from ((DefaultTrackPreparator.prepare_docs, dict(common, corpus=corpus)) for corpus in used_corpora(track))\n'),
+    V('corpora held in a local and enumerated', 'keep', _L, _GEN_OLD,
+      '        corpora = list(used_corpora(track))\n        for _, corpus in enumerate(corpora):\n            params = {"cfg": self.cfg, "track": track, "corpus": corpus, "preparator": prep}\n'
+      '            yield DefaultTrackPreparator.prepare_docs, params\n'),
 ]
